@@ -30,6 +30,8 @@ def run(test_file, test_name=None, timeout=1500):
 
 
 def confirm(result, key, test_file, test_name):
+    if os.environ.get('VERIF_NO_SCEN'):
+        return          # seeded-change lanes run against another checkout than the scenario crate is built for
     """Attach native confirmation to the failure `key` of an obligation Result: reproduces -> confirmed; scenario passes -> unconfirmed."""
     for f in result.failures:
         if f['key'] == key:
